@@ -14,3 +14,5 @@ import QmiModel.Props.C07
 #print axioms QmiModel.PubSub.own_snapshots_in_publication_order
 #print axioms QmiModel.PubSub.per_publisher_thread_order_local
 #print axioms QmiModel.PubSub.per_publisher_thread_order_partial
+#print axioms QmiModel.PubSub.network_fifo
+#print axioms QmiModel.PubSub.per_publisher_thread_order
